@@ -101,7 +101,7 @@ EXPORT errno_t _strcasecmp_s_chk(const char *dest, rsize_t dmax,
         CHK_DEST_OVR("strcasecmp_s", destbos)
     }
 
-    while (*udest && *usrc && dmax) {
+    while (dmax && *udest && *usrc) {
 
         result = toupper(*udest) - toupper(*usrc);
         if (result) {
@@ -114,7 +114,8 @@ EXPORT errno_t _strcasecmp_s_chk(const char *dest, rsize_t dmax,
         dmax--;
     }
 
-    *resultp = toupper(*udest) - toupper(*usrc);
+    /* equal within the first dmax characters */
+    *resultp = dmax ? toupper(*udest) - toupper(*usrc) : 0;
     return RCNEGATE(EOK);
 }
 #ifdef __KERNEL__
